@@ -260,8 +260,11 @@ def transient_names():
     return [s[0] for s in ALPHABET if s[4] != 'none' and spec_transient(s, 0)]
 
 
+SIMPLE = ['ok', 'tmp', 'perm', 'text-marker', 'notfound']
+
+
 def shrink(names, fails):
-    """greedy: drop elements / shorten while the property still fails"""
+    """greedy: drop elements while the property still fails, then replace each symbol by the simplest one that keeps it failing"""
     cur = list(names)
     changed = True
     while changed:
@@ -270,6 +273,14 @@ def shrink(names, fails):
             cand = cur[:i] + cur[i + 1:]
             if cand and fails(cand):
                 cur, changed = cand, True
+                break
+    for i in range(len(cur)):
+        for s in SIMPLE:
+            if cur[i] == s:
+                break
+            cand = cur[:i] + [s] + cur[i + 1:]
+            if fails(cand):
+                cur = cand
                 break
     return cur
 
@@ -296,7 +307,7 @@ def run(ctx):
                 continue
             for last in names:
                 cases.append(list(pre) + [last])
-                if j >= 4:
+                if j == 5 or (j == 4 and not quick):
                     cases.append(list(pre) + [last, 'ok'])
     for _ in range(6000 if quick else 40000):
         ln = ctx.rng.randrange(1, 9)
@@ -307,6 +318,7 @@ def run(ctx):
     lines = [' '.join(describe(SYM[n], k) for k, n in enumerate(c)) for c in cases]
     model = ctx.model(lines)
     seen_fail = set()
+    shrunk = 0
     for idx, c in enumerate(cases):
         issued, sleeps, out, raw = impl_run(c)
         got = f"{issued} {','.join(sleeps) or '-'} {out}"
@@ -319,6 +331,9 @@ def run(ctx):
             ctx.count('final-symbol-domain', SYM[c[min(issued, len(c)) - 1]][4])
         bad = spec_check(c, issued, sleeps, raw)
         if bad:
+            ctx.count('oracle', 'fails')
+        if bad and shrunk < 8:          # every further failure is only counted
+            shrunk += 1
             def fails(cand):
                 i2, s2, _, r2 = impl_run(cand)
                 return spec_check(cand, i2, s2, r2) is not None
